@@ -188,6 +188,10 @@ class Engine(FsMixin, ExprMixin, StmtMixin, CallMixin, SpecMixin, BuiltinMixin, 
             v = V(z3.Const("arg_" + a.vararg.arg, Val), types.get(a.vararg.arg, "tuple"))
             self.assume_type(st, v); self.old_object(st, v.t)
             st.env[a.vararg.arg] = v; binds[a.vararg.arg] = v
+        for p, ty_ in c.get("closure", {}).items():      # free variables of a nested function: bound like parameters
+            v = V(z3.Const("arg_" + p, Val), ty_)
+            self.assume_type(st, v); self.old_object(st, v.t)
+            st.env[p] = v; binds[p] = v
         for g, (ty, init) in c.get("ghost", {}).items():
             gv = V(z3.Const("ghost_" + g, Val), ty)
             self.assume_type(st, gv)
